@@ -324,6 +324,8 @@ func runC15(c *Ctx) {
 		}
 		if defaultCall == nil || literalCall == nil {
 			r5.Fail(a2m.Pos(), p.FuncName(a2m), "literal / default conversions not found", "arg2map no longer converts the written argument and the argument definition's default")
+		} else if c15PathForm(p, a2m, literalCall, defaultCall, r5) {
+			// decided on the control-flow graph, without a 'found' flag
 		} else {
 			// hasValue is a phi; the default's block must be guarded by !hasValue where hasValue is true after the literal/variable branch
 			guardedByNotFound := false
@@ -419,4 +421,164 @@ func dominatesOrPrecedes(a, b ssa.Instruction) bool {
 	}
 	// a's block reaches b's block and not the reverse within one loop iteration: approximate by block index order
 	return a.Block().Index < b.Block().Index
+}
+
+// c15PathForm decides the precedence structure of arg2map on the control-flow graph alone, for code that has no
+// 'value found' flag: inside one iteration over the argument definitions (1) the default conversion is not reachable
+// from the literal conversion nor from the 'found' side of the variable lookup, (2) every value obtained — literal,
+// supplied variable, default — reaches a write of result[argDef.Name] before the iteration ends, and (3) every write
+// stores one of those three values under that key. Returns false (deciding nothing) when the shape is not this one.
+func c15PathForm(p *Program, a2m *ssa.Function, literalCall, defaultCall ssa.Instruction, r *RuleResult) bool {
+	headers, bodies := loopsOf(a2m)
+	var hdr *ssa.BasicBlock
+	for _, h := range headers {
+		if bodies[h][literalCall.Block()] && bodies[h][defaultCall.Block()] && (hdr == nil || len(bodies[h]) < len(bodies[hdr])) {
+			hdr = h
+		}
+	}
+	if hdr == nil {
+		return false
+	}
+	// a flag form has a boolean phi deciding the default: leave that to the flag rule
+	for _, cd := range condsAt(defaultCall.Block()) {
+		if ph, ok := cd.V.(*ssa.Phi); ok && isBoolPhi(ph) {
+			return false
+		}
+	}
+	inIter := func(from *ssa.BasicBlock, blocked map[*ssa.BasicBlock]bool) map[*ssa.BasicBlock]bool {
+		return reachAvoiding(from, func(b *ssa.BasicBlock) bool { return b == hdr || blocked[b] }, nil)
+	}
+	// the variable lookup and its found edge
+	var foundStart *ssa.BasicBlock
+	var lookupVal ssa.Value
+	allInstrs(a2m, func(in ssa.Instruction) {
+		lk, ok := in.(*ssa.Lookup)
+		if !ok || !lk.CommaOk || lk.X != ssa.Value(a2m.Params[2]) {
+			return
+		}
+		for _, ref := range *lk.Referrers() {
+			ex, ok := ref.(*ssa.Extract)
+			if !ok {
+				continue
+			}
+			if ex.Index == 0 {
+				lookupVal = ex
+			}
+			if ex.Index == 1 {
+				for _, r2 := range *ex.Referrers() {
+					if ifi, ok := r2.(*ssa.If); ok {
+						foundStart = ifi.Block().Succs[0]
+					}
+				}
+			}
+		}
+	})
+	if foundStart == nil || lookupVal == nil {
+		return false
+	}
+	var writes []*ssa.MapUpdate
+	writeBlocks := map[*ssa.BasicBlock]bool{}
+	allInstrs(a2m, func(in ssa.Instruction) {
+		if mu, ok := in.(*ssa.MapUpdate); ok {
+			writes = append(writes, mu)
+			writeBlocks[in.Block()] = true
+		}
+	})
+	if len(writes) == 0 {
+		return false
+	}
+	okAll := true
+	fail := func(pos token.Pos, what, msg string) {
+		okAll = false
+		r.Fail(pos, p.FuncName(a2m), what, msg)
+	}
+	// (1)
+	afterLiteral := inIter(literalCall.Block(), nil)
+	if afterLiteral[defaultCall.Block()] && literalCall.Block() != defaultCall.Block() {
+		fail(defaultCall.Pos(), "default not guarded by 'no value found'", "the default conversion is reachable after the written literal was converted: the argument default can override a written literal")
+	}
+	if inIter(foundStart, nil)[defaultCall.Block()] || foundStart == defaultCall.Block() {
+		fail(defaultCall.Pos(), "default not guarded by 'no value found'", "the default conversion is reachable on the side where the variable was found among the supplied values: the argument default can override a supplied variable (an explicit null included)")
+	}
+	// (2) each source reaches a write before the iteration ends
+	ends := func(from *ssa.BasicBlock) bool {
+		if writeBlocks[from] {
+			return false
+		}
+		for b := range inIter(from, writeBlocks) {
+			for _, s := range b.Succs {
+				if s == hdr {
+					return true
+				}
+			}
+		}
+		return false
+	}
+	// the error branches panic: they do not end the iteration normally (no edge to the header)
+	for _, src := range []struct {
+		b    *ssa.BasicBlock
+		what string
+	}{{literalCall.Block(), "the converted literal"}, {foundStart, "the supplied variable"}, {defaultCall.Block(), "the converted default"}} {
+		if ends(src.b) {
+			fail(src.b.Instrs[0].Pos(), "result written without 'value found'", src.what+" can be dropped: the iteration can end without result[argDef.Name] having been written")
+		}
+	}
+	// (3)
+	for _, mu := range writes {
+		if !loadOfField(mu.Key, "ArgumentDefinition", "Name") {
+			fail(mu.Pos(), "result written under another key", "the key is not the argument definition's name")
+			continue
+		}
+		okV := false
+		var walk func(v ssa.Value, d int)
+		walk = func(v ssa.Value, d int) {
+			if d > 5 || okV {
+				return
+			}
+			v = stripChange(v)
+			if v == lookupVal {
+				okV = true
+				return
+			}
+			switch x := v.(type) {
+			case *ssa.Extract:
+				if call, ok := x.Tuple.(*ssa.Call); ok && (call == literalCall.(*ssa.Call) || call == defaultCall.(*ssa.Call)) && x.Index == 0 {
+					okV = true
+				}
+			case *ssa.Phi:
+				for _, e := range x.Edges {
+					walk(e, d+1)
+				}
+			case *ssa.UnOp:
+				if al, ok := x.X.(*ssa.Alloc); ok {
+					for _, sv := range storesTo(al) {
+						walk(sv, d+1)
+					}
+				}
+			}
+		}
+		walk(mu.Value, 0)
+		if !okV {
+			fail(mu.Pos(), "result written with another value", "the value stored is not the converted literal, the supplied variable or the converted default")
+		}
+	}
+	if okAll {
+		r.OK("arg2map: literal or supplied variable first, default unreachable from either, every obtained value written under argDef.Name", "decided on the control-flow graph of one iteration")
+		r.OK("arg2map: every write stores one of the three sources", "")
+		// the loop is over the definition's arguments
+		okLoop := false
+		allInstrs(a2m, func(in ssa.Instruction) {
+			if ia, ok := in.(*ssa.IndexAddr); ok {
+				if prm, ok := ia.X.(*ssa.Parameter); ok && prm == a2m.Params[0] {
+					okLoop = true
+				}
+			}
+		})
+		if okLoop {
+			r.OK("arg2map iterates the argument definitions (unwritten arguments get their defaults)", "")
+		} else {
+			r.Fail(a2m.Pos(), p.FuncName(a2m), "loop not over the argument definitions", "arguments that are not written would get no default")
+		}
+	}
+	return true
 }
